@@ -27,13 +27,18 @@ def run(prog: Program, rep: Report):
 
 
 def _csv_calls(prog, cls: Cls):
+    """(writer construction, the method that writes a row, reader construction, the method that reads); the methods are taken with
+    the class's private helpers inlined (sa/inline.py), and the writing method is the one that calls writerow"""
     w = r = None
     wf = rf = None
-    for f in cls.methods.values():
+    views = [prog.method_view(cls, name) for name in cls.methods]
+    for f in views:
         for c in calls_in(f.node):
             n = ext_name(prog, f, c)
             if n in ("csv.DictWriter", "csv.writer"):
-                w, wf = c, f
+                has_row = any(isinstance(x.func, ast.Attribute) and x.func.attr in ("writerow", "writerows") for x in calls_in(f.node))
+                if wf is None or has_row:
+                    w, wf = c, f
             elif n in ("csv.reader", "csv.DictReader"):
                 r, rf = c, f
     return w, wf, r, rf
@@ -166,7 +171,9 @@ class _Buf(Client):
                 self.problems.append((node.lineno, f"getvalue in state {state}"))
             return (READ,)
         if name == "truncate":
-            if not (node.args and const_value(node.args[0]) == 0):
+            explicit0 = bool(node.args) and const_value(node.args[0]) == 0
+            if not explicit0 and not (not node.args and not node.keywords and state == SOUGHT):
+                # truncate() with no size cuts at the current position: that is 0 only right after seek(0)
                 self.problems.append((node.lineno, "truncate() without the explicit size 0 cuts at the current position (end of the row)"))
             if state == DIRTY:
                 self.problems.append((node.lineno, "the buffer is truncated before its content was read"))
@@ -215,12 +222,23 @@ def r3_buffer(prog, rep: Report, csvr: Cls):
     for n in walk_own(wf.node):
         if isinstance(n, ast.Call) and isinstance(n.func, ast.Attribute) and n.func.attr == "writerow" and isinstance(n.func.value, ast.Name):
             wvar = n.func.value.id
+    from ..util import iter_stores
+    all_stores = list(iter_stores(wf.node))
+    # the names through which the writer travels (w = cls._writer[cls]; result = w; result.writerow(..))
+    wnames = {wvar} if wvar else set()
+    changed = True
+    while changed:
+        changed = False
+        for t, val, st in all_stores:
+            if isinstance(t, ast.Name) and t.id in wnames and isinstance(val, ast.Name) and val.id not in wnames:
+                wnames.add(val.id)
+                changed = True
     sources = []
-    for t, val, st in __import__("sa.util", fromlist=["iter_stores"]).iter_stores(wf.node):
-        if isinstance(t, ast.Name) and t.id == wvar and val is not None and not (isinstance(val, ast.Call) and "csv." in src(val.func)):
+    for t, val, st in all_stores:
+        if isinstance(t, ast.Name) and t.id in wnames and val is not None and not isinstance(val, ast.Name) \
+                and not (isinstance(val, ast.Call) and "csv." in src(val.func)):
             sources.append(val)
-    stores = [t for t, val, st in __import__("sa.util", fromlist=["iter_stores"]).iter_stores(wf.node)
-              if isinstance(val, ast.Name) and val.id == wvar and not isinstance(t, ast.Name)]
+    stores = [t for t, val, st in all_stores if isinstance(val, ast.Name) and val.id in wnames and not isinstance(t, ast.Name)]
     def _keyed(e):
         return isinstance(e, ast.Subscript) and isinstance(e.slice, ast.Name) and e.slice.id == "cls"
     keyed = bool(wvar) and all(_keyed(x) for x in sources) and all(_keyed(x) for x in stores) and (bool(sources) or bool(stores))
